@@ -1,8 +1,8 @@
-\* design-level statement of finding D1 (must be VIOLATED while the defect exists): ~builder unwinds the
+\* regression for finding D1 / F21 (fixed in /repo): with the original destructor the invariant must be VIOLATED: ~builder unwinds the
 \* joint stack only if (size_), so a throw from the FIRST element leaves the piece allocated
 SPECIFICATION Spec
 CONSTANTS MaxN = 4
           Helpers = {"jarray"}
-          Bug = "none"
+          Bug = "builder_unwind_if_size"
 INVARIANT JointMemoryReturned
 CHECK_DEADLOCK FALSE
